@@ -98,3 +98,9 @@ Definition mode_eqb (mode : string) : rxn_key -> rxn_key -> bool :=
   else if String.eqb mode "minimal" then minimal_eqb
   else if String.eqb mode "short" then short_eqb
   else rxn_eqb.
+
+(** Reaction.__hash__: the hashes of the reactants, sorted, then those of the
+    products, sorted, in ONE tuple (no separator between the two sides); [h] maps
+    a species identity to its hash class *)
+Definition rxn_hash (h : nat -> nat) (a : rxn_key) : list nat :=
+  isort Nat.leb (map h (k_reac a)) ++ isort Nat.leb (map h (k_prod a)).
